@@ -663,6 +663,13 @@ func run(c *fw.Ctx, idx int) {
 					}
 				}
 			}
+			// ... and a snapshot of an empty pinset writes nothing at all: the restarted member
+			// carrying the leader's snapshot index was sent that snapshot
+			if vh, lh := sim.RaftHandle(cl.members[victim].peer.Node.Consensus), sim.RaftHandle(cl.members[cl.leaderOr(ctx, (victim+1)%n)].peer.Node.Consensus); vh != nil && lh != nil && groups < 2 {
+				if vs, ls := vh.Stats()["last_snapshot_index"], lh.Stats()["last_snapshot_index"]; vs != "" && vs != "0" && vs == ls && len(b) == 0 {
+					groups = 2
+				}
+			}
 			if groups >= 2 && e1 == nil && e2 == nil {
 				staleOnly, stale := true, 0
 				for k, v := range b {
@@ -734,6 +741,15 @@ func run(c *fw.Ctx, idx int) {
 		for _, m := range cl.members {
 			m.peer.Gater.UnblockAll()
 		}
+		// the follower's own count of installed snapshots: a snapshot of an empty pinset
+		// writes nothing, so the journal alone cannot tell that it was installed
+		snapIdx := func() string {
+			if rh := sim.RaftHandle(cl.members[f].peer.Node.Consensus); rh != nil {
+				return rh.Stats()["last_snapshot_index"]
+			}
+			return ""
+		}
+		snapBefore := snapIdx()
 		sim.ConnectAll(ctx, cl.hosts())
 		restored := false
 		ok := waitUntil(30*time.Second, func() bool {
@@ -741,6 +757,12 @@ func run(c *fw.Ctx, idx int) {
 			b, e2 := content(ctx, cl.members[cl.leaderOr(ctx, lead)])
 			for _, e := range journalOf(cl.members[f]) {
 				if e.kind == "restore" {
+					restored = true
+				}
+			}
+			if now := snapIdx(); now != "" && now != "0" && now != snapBefore {
+				// the index of an installed snapshot is the sender's, not a point of the follower's own run
+				if rh := sim.RaftHandle(cl.members[cl.leaderOr(ctx, lead)].peer.Node.Consensus); rh != nil && rh.Stats()["last_snapshot_index"] == now {
 					restored = true
 				}
 			}
